@@ -365,7 +365,8 @@ func (m *Variant) Encode() ([]byte, error) {
 
 // encode recursively writes the values to the buffer.
 func (m *Variant) encode(buf *Buffer, val reflect.Value) {
-	if val.Kind() != reflect.Slice || m.Type() == TypeIDByteString {
+	// a []byte is the value of a ByteString, [][]byte is an array of them
+	if val.Kind() != reflect.Slice || (m.Type() == TypeIDByteString && val.Type().Elem().Kind() == reflect.Uint8) {
 		m.encodeValue(buf, val.Interface())
 		return
 	}
@@ -472,7 +473,8 @@ func sliceDim(val reflect.Value) (typ reflect.Type, dim []int32, count int32, er
 	}
 
 	// check that inner slices all have the same length
-	if val.Index(0).Kind() == reflect.Slice {
+	// (the elements of an array of ByteString may differ in length)
+	if val.Index(0).Kind() == reflect.Slice && val.Index(0).Type() != reflect.TypeOf([]byte{}) {
 		for i := 0; i < val.Len(); i++ {
 			if val.Index(i).Len() != val.Index(0).Len() {
 				return nil, nil, 0, errUnbalancedSlice
